@@ -43,6 +43,7 @@ type model struct {
 	readers []*rd
 	stats   map[string]int
 	mu      sync.Mutex // model state (events may be issued from two goroutines)
+	pendingReports []uint32
 	endedInFirstPiece bool // some reader was closed / ended / cancelled while positioned in piece 0
 }
 
@@ -433,7 +434,10 @@ func newModel(sw *swarm.Swarm, g *fixture.Geo) *model {
 	return &model{sw: sw, tr: tr, prios: map[uint32][]int8{}, stats: map[string]int{}}
 }
 
-var alphabet = []string{"reqA", "reqB", "wdA", "complete", "fail", "evict"}
+var alphabet = []string{"reqA", "reqB", "wdA", "complete", "fail", "evict", "evictSilent", "reportEvict"}
+
+// the first six letters are enumerated up to length 5, all eight up to length 4
+const baseLetters = 6
 
 // exhaustive: all orderings of up to 5 events on one piece.
 func exhaustive(t *testing.T, r *vk.Run, idx *int) {
@@ -448,9 +452,33 @@ func exhaustive(t *testing.T, r *vk.Run, idx *int) {
 			gen(append(prefix, a), n)
 		}
 	}
-	maxLen := 5
-	for n := 1; n <= maxLen; n++ {
-		gen(nil, n)
+	var gen2 func(prefix []int, n int, letters int, needNew bool)
+	gen2 = func(prefix []int, n int, letters int, needNew bool) {
+		if len(prefix) == n {
+			if needNew {
+				has := false
+				for _, a := range prefix {
+					if a >= baseLetters {
+						has = true
+					}
+				}
+				if !has {
+					return
+				}
+			}
+			seqs = append(seqs, append([]int(nil), prefix...))
+			return
+		}
+		for a := 0; a < letters; a++ {
+			gen2(append(prefix, a), n, letters, needNew)
+		}
+	}
+	_ = gen
+	for n := 1; n <= 5; n++ {
+		gen2(nil, n, baseLetters, false)
+	}
+	for n := 2; n <= 4; n++ {
+		gen2(nil, n, len(alphabet), true) // orderings that use the delayed eviction report
 	}
 	// group sequences into cases of 64 to amortise bubble start-up
 	const group = 64
@@ -515,6 +543,19 @@ func runSeq(t *testing.T, c *vk.C, seq []int, variant int) {
 				m.fill(P, true)
 			case "evict":
 				m.evict(P)
+			case "evictSilent":
+				// the eviction pass has dropped the piece but its report (Have false) is still on its way
+				if m.complete(P) {
+					m.tr.T.Pieces.Expire(0, nil, func(ix uint32) { m.pendingReports = append(m.pendingReports, ix) })
+					m.sw.Act("evict (report delayed)")
+					m.stat("evict")
+				}
+			case "reportEvict":
+				for _, ix := range m.pendingReports {
+					m.tr.T.Have(ix, false)
+					m.sw.Act("eviction of p%d reported", ix)
+				}
+				m.pendingReports = nil
 			}
 		}
 		for k := 0; k < len(seq); k++ {
@@ -544,7 +585,7 @@ func runSeq(t *testing.T, c *vk.C, seq []int, variant int) {
 	})
 }
 
-func isCompletion(a int) bool { return a >= 3 }
+func isCompletion(a int) bool { return a >= 3 && a < 6 }
 
 // random histories with several pieces, direct consumers and real Readers.
 func randomHistory(t *testing.T, c *vk.C, rng *rand.Rand, i int) map[string]int {
